@@ -61,6 +61,9 @@ func driveProofRoundtrip(rc *RunCtx) {
 			session[i] = byte(r.UintN(256))
 		}
 	}
+	// the verifier holds its own copy of the session bytes (another allocation: for the empty session the
+	// prover's is a nil slice and the verifier's an allocated slice of length 0, the same byte string)
+	vsession := append([]byte{}, session...)
 	q := Secp.n
 	ec := tss.S256()
 	witness := func(order *big.Int) *big.Int {
@@ -111,14 +114,14 @@ func driveProofRoundtrip(rc *RunCtx) {
 				fail = "prover refused: " + err.Error()
 				return
 			}
-			if !pf.Verify(session, X) {
+			if !pf.Verify(vsession, X) {
 				fail = "honest proof rejected"
 				return
 			}
 			// wire: alpha_x, alpha_y, t as big-endian bytes
 			ax, ay, tt := new(big.Int).SetBytes(pf.Alpha.X().Bytes()), new(big.Int).SetBytes(pf.Alpha.Y().Bytes()), new(big.Int).SetBytes(pf.T.Bytes())
 			al, err := crypto.NewECPoint(curve, ax, ay)
-			if err != nil || !(&schnorr.ZKProof{Alpha: al, T: tt}).Verify(session, X) {
+			if err != nil || !(&schnorr.ZKProof{Alpha: al, T: tt}).Verify(vsession, X) {
 				fail = "honest proof rejected after the wire round trip"
 			}
 		case "schnorr-v", "schnorr-v-ed":
@@ -144,12 +147,12 @@ func driveProofRoundtrip(rc *RunCtx) {
 				fail = "prover refused: " + err.Error()
 				return
 			}
-			if !pf.Verify(session, V, R) {
+			if !pf.Verify(vsession, V, R) {
 				fail = "honest proof rejected"
 				return
 			}
 			al, err := crypto.NewECPoint(ec, new(big.Int).SetBytes(pf.Alpha.X().Bytes()), new(big.Int).SetBytes(pf.Alpha.Y().Bytes()))
-			if err != nil || !(&schnorr.ZKVProof{Alpha: al, T: new(big.Int).SetBytes(pf.T.Bytes()), U: new(big.Int).SetBytes(pf.U.Bytes())}).Verify(session, V, R) {
+			if err != nil || !(&schnorr.ZKVProof{Alpha: al, T: new(big.Int).SetBytes(pf.T.Bytes()), U: new(big.Int).SetBytes(pf.U.Bytes())}).Verify(vsession, V, R) {
 				fail = "honest proof rejected after the wire round trip"
 			}
 		case "dln":
@@ -195,13 +198,13 @@ func driveProofRoundtrip(rc *RunCtx) {
 				fail = "prover refused: " + err.Error()
 				return
 			}
-			if !pf.Verify(session, A.PaillierSK.N) {
+			if !pf.Verify(vsession, A.PaillierSK.N) {
 				fail = "honest proof rejected"
 				return
 			}
 			parts := pf.Bytes()
 			pf2, err := modproof.NewProofFromBytes(toWire(parts[:]))
-			if err != nil || !pf2.Verify(session, A.PaillierSK.N) {
+			if err != nil || !pf2.Verify(vsession, A.PaillierSK.N) {
 				fail = fmt.Sprintf("honest proof rejected after the wire round trip (%v)", err)
 			}
 		case "fac":
@@ -210,13 +213,13 @@ func driveProofRoundtrip(rc *RunCtx) {
 				fail = "prover refused: " + err.Error()
 				return
 			}
-			if !pf.Verify(session, ec, A.PaillierSK.N, Bp.NTildei, Bp.H1i, Bp.H2i) {
+			if !pf.Verify(vsession, ec, A.PaillierSK.N, Bp.NTildei, Bp.H1i, Bp.H2i) {
 				fail = "honest proof rejected"
 				return
 			}
 			parts := pf.Bytes()
 			pf2, err := facproof.NewProofFromBytes(toWire(parts[:]))
-			if err != nil || !pf2.Verify(session, ec, A.PaillierSK.N, Bp.NTildei, Bp.H1i, Bp.H2i) {
+			if err != nil || !pf2.Verify(vsession, ec, A.PaillierSK.N, Bp.NTildei, Bp.H1i, Bp.H2i) {
 				fail = fmt.Sprintf("honest proof rejected after the wire round trip (%v)", err)
 			}
 		case "alice":
@@ -273,13 +276,13 @@ func driveProofRoundtrip(rc *RunCtx) {
 					fail = "prover refused: " + err.Error()
 					return
 				}
-				if !pf.Verify(session, ec, pk, A.NTildei, A.H1i, A.H2i, c1, c2) {
+				if !pf.Verify(vsession, ec, pk, A.NTildei, A.H1i, A.H2i, c1, c2) {
 					fail = "honest proof rejected"
 					return
 				}
 				parts := pf.Bytes()
 				pf2, err := mta.ProofBobFromBytes(toWire(parts[:]))
-				if err != nil || !pf2.Verify(session, ec, pk, A.NTildei, A.H1i, A.H2i, c1, c2) {
+				if err != nil || !pf2.Verify(vsession, ec, pk, A.NTildei, A.H1i, A.H2i, c1, c2) {
 					fail = fmt.Sprintf("honest proof rejected after the wire round trip (%v)", err)
 				}
 			} else {
@@ -289,13 +292,13 @@ func driveProofRoundtrip(rc *RunCtx) {
 					fail = "prover refused: " + err.Error()
 					return
 				}
-				if !pf.Verify(session, ec, pk, A.NTildei, A.H1i, A.H2i, c1, c2, X) {
+				if !pf.Verify(vsession, ec, pk, A.NTildei, A.H1i, A.H2i, c1, c2, X) {
 					fail = "honest proof rejected"
 					return
 				}
 				parts := pf.Bytes()
 				pf2, err := mta.ProofBobWCFromBytes(ec, toWire(parts[:]))
-				if err != nil || !pf2.Verify(session, ec, pk, A.NTildei, A.H1i, A.H2i, c1, c2, X) {
+				if err != nil || !pf2.Verify(vsession, ec, pk, A.NTildei, A.H1i, A.H2i, c1, c2, X) {
 					fail = fmt.Sprintf("honest proof rejected after the wire round trip (%v)", err)
 				}
 			}
